@@ -198,6 +198,7 @@ def name_pass_set_hir(facts, fid):
     h = facts.hirfns.get(fid)
     if h is None:
         return None
+    BP.FACTS = facts
     body = h["body"]
     for e in BP.find_all(body, lambda x: x[0] == "if" and x[3] is not None):
         els = e[3]
